@@ -815,6 +815,20 @@ func (e *Env) call(n *ECall) Val {
 		}
 		a0 := g.heapGet(base, "$alloc", "Int")
 		return Val{T: fmt.Sprintf("(>= %s %s)", ref, a0), S: "Bool", GT: types.Typ[types.Bool]}
+	case "loopfresh":
+		// loopfresh(x): x was allocated after the loop this invariant belongs to was entered
+		v := e.tr(n.Args[0])
+		ref := v.T
+		if _, isSl := typeUnder(v.GT).(*types.Slice); isSl {
+			ref = sref(v.T)
+		}
+		for _, li := range g.loops {
+			if li.header == e.at && li.allocEntry != "" {
+				return Val{T: fmt.Sprintf("(>= %s %s)", ref, li.allocEntry), S: "Bool", GT: types.Typ[types.Bool]}
+			}
+		}
+		// before the loop is entered (invariant checked on the entry edge): nothing has been allocated inside it yet
+		return Val{T: fmt.Sprintf("(>= %s %s)", ref, g.heapGet(e.state(), "$alloc", "Int")), S: "Bool", GT: types.Typ[types.Bool]}
 	case "allocated":
 		// allocated(x): the reference x was allocated before the state the expression is evaluated in
 		// (true of every reference stored in that state's heap; stated explicitly where a quantified invariant needs it)
